@@ -381,9 +381,10 @@ def make_units(name, iset):
         return block_replay(name, iset, inputs, ob)
     opts = {'contracts': {}, 'max_paths': 20000, 'merge_calls': step.merge_set()}
     qn = '%s.%s.execute' % (K.__module__, name)
-    return [Unit('C03/exec:%s[%s]/head' % (name, iset), ['C03'], head, nreplay, dict(opts), meta={'function': qn, 'inductive': True}),
-            Unit('C03/exec:%s[%s]/step' % (name, iset), ['C03'], stepu, nreplay, dict(opts), meta={'function': qn, 'inductive': True}),
-            Unit('C03/exec:%s[%s]/tail' % (name, iset), ['C03'], tail, nreplay, dict(opts), meta={'function': qn, 'inductive': True})]
+    props = ['C03', 'C12'] if kind == 'ldmeret' else ['C03']        # LDM (exception return) is one of the returns of C12
+    return [Unit('C03/exec:%s[%s]/head' % (name, iset), props, head, nreplay, dict(opts), meta={'function': qn, 'inductive': True}),
+            Unit('C03/exec:%s[%s]/step' % (name, iset), props, stepu, nreplay, dict(opts), meta={'function': qn, 'inductive': True}),
+            Unit('C03/exec:%s[%s]/tail' % (name, iset), props, tail, nreplay, dict(opts), meta={'function': qn, 'inductive': True})]
 
 
 def block_replay(name, iset, inputs, ob):
